@@ -437,6 +437,38 @@ fn mode_tap(args: &Args) {
     }
 }
 
+/// C17: one constraint per model, many assumption probes: every rule of every propagator is run and
+/// explained in many non-root states (all sign combinations, fixed / unfixed arguments).
+fn mode_probe(args: &Args) {
+    let mut master = Rng::new(args.seed ^ 0x9B0BE);
+    let mut cfg = cfg_from(args);
+    cfg.min_cons = 1;
+    cfg.max_cons = 1;
+    cfg.min_vars = 3;
+    cfg.max_vars = 4;
+    cfg.max_width = 8;
+    cfg.max_product = cfg.max_product.min(6000);
+    cfg.plant_pct = 80;
+    cfg.sym_pct = 0;
+    cfg.straddle_pct = 60;
+    let probes: usize = args.kv.get("probes").map(|s| s.parse().unwrap()).unwrap_or(120);
+    for i in 0..args.cases {
+        let case_seed = master.next();
+        if only_skip(args, i) {
+            continue;
+        }
+        let mut r = Rng(case_seed);
+        let m = gen_model(&mut r, &cfg);
+        let mut setup = Setup::random(&mut r);
+        setup.opts.resolver_uip = true;
+        let id = format!("{}-{}", args.seed, i);
+        run_case(&id, &format!("scen=tap:probe seed={} probes={} {}", case_seed, probes, setup.describe()), |out| {
+            kinds_meta(&m, out);
+            scen_tap_probes(&m, &setup, 1, probes, out)
+        });
+    }
+}
+
 /// C19: DRCP text and literal definitions
 fn mode_drcp(args: &Args) {
     let mut master = Rng::new(args.seed);
@@ -530,7 +562,10 @@ fn mode_one(args: &Args) {
                 ops.push(Op::Satisfy);
                 scen_history(&initial, &ops, &setup, out)
             }
-            "tap" => scen_tap(&m, &setup, args.kv.get("k").map(|s| s.parse().unwrap()).unwrap_or(1), out),
+            "tap" => match args.kv.get("probes") {
+                Some(p) => scen_tap_probes(&m, &setup, args.kv.get("k").map(|s| s.parse().unwrap()).unwrap_or(1), p.parse().unwrap(), out),
+                None => scen_tap(&m, &setup, args.kv.get("k").map(|s| s.parse().unwrap()).unwrap_or(1), out),
+            },
             "tapdump" => {
                 use pumpkin_solver::verif_hooks::*;
                 tap_enable(true);
@@ -622,6 +657,7 @@ fn main() {
         "tap" => mode_tap(&args),
         "drcp" => mode_drcp(&args),
         "dimacs" => mode_dimacs(&args),
+        "probe" => mode_probe(&args),
         "proof" => mode_proof(&args),
         "configs" => mode_configs(&args),
         "interrupt" => mode_interrupt(&args),
